@@ -43,6 +43,23 @@ def _fields_of(F, adt):
     return [x["name"] for x in a["variants"][0]["fields"]] if a else []
 
 
+def _composed_fields(P, f, adt_fields, steps, adt, depth=0):
+    """_result_fields, looking through a tail call to a declared step: `self.with_x(v)` is `self` with field x := v"""
+    rf = _result_fields(P, f, adt_fields)
+    if rf is not None:
+        return rf
+    ret = peel(P.ret(f))
+    if ret[0] == "call" and ret[1].startswith(adt + "::") and ret[1].rsplit("::", 1)[1] in steps and len(ret[2]) == 2 and depth < 3:
+        inner = peel(ret[2][0])
+        if inner[0] == "param" and inner[2] == "self":
+            base = {n: ("field", inner, n) for n in adt_fields}
+        else:
+            return None
+        base[steps[ret[1].rsplit("::", 1)[1]]] = ret[2][1]
+        return base
+    return None
+
+
 def _result_fields(P, f, adt_fields):
     """{field: origin} of the value returned by a by-value builder step"""
     ret = P.ret(f)
@@ -85,7 +102,30 @@ def r1(ctx, cfg, adt, steps):
         for m in imp["methods"]:
             if m["inputs"] and m["inputs"][0].get("adt") == adt and m["output"].startswith(adt):
                 found.append(m["name"])
-                ctx.ob(R, m["key"], "step-is-declared", m["name"] in steps, "builder step %s::%s has no declared write set" % (adt, m["name"]), sample=steps.get(m["name"]))
+                if m["name"] in steps:
+                    ctx.ob(R, m["key"], "step-is-declared", True, "-", sample=steps.get(m["name"]))
+                else:
+                    # a step added later needs no declaration when its effect can be read off: every field of the result is the
+                    # field of `self` it came from, except at most one, and that one is made from the step's arguments and the
+                    # same field of `self` only (`with_block_height(h)` = `self.with_block(BlockInfo { height: h, ..self.block })`)
+                    g = F.fn(m["key"])
+                    rf = _composed_fields(P, g, fields, steps, adt) if g is not None else None
+                    okn, d = rf is not None, "cannot see the returned %s as a per-field value" % adt
+                    if okn:
+                        changed = []
+                        for fld in fields:
+                            po = peel(rf.get(fld, ("?",)))
+                            if po[0] == "field" and po[2] == fld and is_param(po[1], "self"):
+                                continue
+                            changed.append(fld)
+                            if contains(rf[fld], lambda x: x[0] in ("call", "agg") and any(is_param(a if x[0] == "call" else a[1], "self") for a in x[2])):
+                                okn = False            # (the whole builder flows into one field)
+                            if contains(rf[fld], lambda x: x[0] == "field" and is_param(x[1], "self") and x[2] != fld):
+                                okn = False
+                        okn = okn and len(changed) <= 1
+                        d = "new step %s changes %s" % (m["name"], changed)
+                    ctx.ob(R, m["key"], "step-is-declared", okn, "builder step %s::%s is not declared and its effect is not a single-field update: %s" % (adt, m["name"], d),
+                           sample="derived: %s" % d)
     ctx.floor(R, "%s steps" % adt, len(found), len(steps))
     for name, declared in sorted(steps.items()):
         key = "%s::%s" % (adt, name)
